@@ -42,7 +42,8 @@ class OsuToSM(ConvertBase):
         sms.background = osu.background_file_name
         sms.sample_start = osu.preview_time
         sms.sample_length = 10
-        sms.offset = 0.0
+        # Beat 0 of the file is the first bpm
+        sms.offset = sm.bpms.first_offset() or 0.0
 
         sm.chart_type = SMMapChartTypes.get_type(osu.stack().column.max() + 1)
 
